@@ -531,6 +531,8 @@ func checkC06(ck *Check) {
 	}
 	if kp := ck.P.SSAPkg[pkgK8s]; kp != nil {
 		ck.commutativeFold("C06.R12", kp.Func("CalculatePodsRequestedUsage"), "Total")
+		// … and its denominator: the allocatable resources of every untainted node
+		ck.commutativeFold("C06.R12", kp.Func("CalculateNodesCapacity"), "Total")
 	}
 	// R8 the statement quantifies over the triples and rate pairs validation accepts: the band switch
 	// (first true case wins) is the documented table only if 0 < lower < upper < scale-up, 0 ≤ slow ≤ fast
@@ -798,6 +800,9 @@ func checkC08(ck *Check) {
 	ck.nodeListImmutability("C08.R2")
 	// R5 the candidates are all the untainted nodes: the classifier withholds none
 	ck.classificationComplete("C08.R5")
+	// R6 a node counted as tainted is tainted: the writer's nil error means the Update succeeded or the
+	// taint was already there (decided as C03.R6) — a slot used up without a taint goes to a younger node
+	ck.writeConfirmed("C08.R6", a.AddTaint)
 }
 
 // ---------------------------------------------------------------------------------------------
@@ -966,6 +971,9 @@ func checkC07(ck *Check) {
 	ck.everyCandidateAttempted("C07.R8", a.UntaintLoop, "A-UNTAINT")
 	// R9 what is untainted first is a tainted, uncordoned node of the group (decided as C01.R5)
 	ck.classification("C07.R9", map[int]string{1: "tainted"})
+	// R10 … and the loop is offered all of them: the tainted list handed to ScaleUp is the classifier's
+	// whole result, not a filtered copy (decided as C01.R5 / C09.R2)
+	ck.scaleOptsBinding("C07.R10")
 	// R5 typestate
 	ck.cacheTypestate("C07.R5")
 	// R6
